@@ -3,6 +3,7 @@ import I2N.Lemmas.TravClean
 import I2N.Model.TravMon
 import I2N.Extracted.GenClean
 import I2N.Lemmas.GenLazy
+import I2N.Lemmas.GenShared
 /-!
 # C05 — States are removed only after every dependant finished, and only if asked
 -/
@@ -814,5 +815,20 @@ example : ([[0, 1], [2]] : List (List Nat)).flatten = List.range 3 := by decide
 example : genSharedInvolvedWorkers [2] [0, 2] [[0, 1], [2, 3]] = [0, 2] ∧
     genSharedInvolvedWorkers [] [] [[0, 1], [2, 3]] = [] ∧
     genSharedInvolvedWorkers [1] [] [[0], [], [1]] = [1] := by decide
+
+/-- **The hand written `sharedResults` is the Python source of `shared_results`**: the node's own results followed by
+those of its bridged copies in order, for every graph, state and node.  `self.bridged_nodes` = the other copies of the
+class (`(g.copies n).tail`; none for a flat node).  No hypotheses. -/
+theorem sharedResults_matches_source (g : Graph) (s : State) (n : Nat) :
+    sharedResults g s n = genSharedResults (s.nd n).results (g.copies n).tail (fun m => (s.nd m).results) := by
+  rw [I2N.GenShared.genSharedResults_eq, sharedResults]
+  conv => lhs; rw [I2N.GenShared.copies_cons g n]
+  rw [List.flatMap_cons]
+
+/-- the generated definition computes: own results first, then copy by copy -/
+example :
+    genSharedResults [{ name := "a", status := "PASS", uid := "1" }] [4, 7]
+      (fun m => if m == 7 then [{ name := "b", status := "FAIL", uid := "2" }] else []) =
+      [{ name := "a", status := "PASS", uid := "1" }, { name := "b", status := "FAIL", uid := "2" }] := by decide
 
 end I2N.Props.C05
